@@ -66,6 +66,13 @@ def plan(tier, seed):
     firsts = rng.sample(range(len(p)), min(sz["firsts"], len(p)))
     per = 1 if tier == "quick" else 1
     sh += [{"kind": "first", "ids": firsts[i : i + per], "tier": tier, "_name": f"first-{firsts[i]}"} for i in range(0, len(firsts), per)]
+    for i in range(2 if tier == "quick" else 12):
+        sh.append({"kind": "aborts", "part": i, "tier": tier, "_name": f"aborts-{i}"})
+    ks = sorted(set(range(1, 31)) | {34, 55, 89, 144, 233, 377, 610, 987, 1597, 2584, 4181, 6765, 10946, 17711, 28657, 46368, 75025})
+    if tier != "quick":
+        ks = sorted(set(ks) | set(range(1, 400)))
+    for i in range(0, len(ks), 6):
+        sh.append({"kind": "coldaborts", "ks": ks[i : i + 6], "tier": tier, "_name": f"coldaborts-{i // 6}"})
     for s_ in sh:
         s_["pool_file"] = pf
     sh[0]["_cleanup"] = [pf]
@@ -115,7 +122,114 @@ class Recorder:
         self.mon.notes["shard"] = shard_name
 
 
+def run_aborts(shard, mon, S, p):
+    """Calls that are aborted half-way - an asynchronous exception (time-out, KeyboardInterrupt) surfacing at the
+    K-th line the call executes inside the package - are calls that failed: whatever they had started must not
+    show in any later call.  After every abort the aborted call itself and a fixed probe set are executed and
+    compared with their outcomes from before."""
+    from vf.mon.failpoint import Failpoints  # noqa: PLC0415
+
+    rng = env.rng("C15", "aborts", shard["part"])
+    fam = [i for i, d in enumerate(p) if d["fn"] in ("iban", "iban_lookup", "from_bank_code", "candidates", "generate", "random", "bban_random", "bic", "bic_lookup", "bban", "algo", "bban_check", "shared_validate", "from_bban")]
+    victims = rng.sample(fam, min(len(fam), 14 if shard["tier"] == "quick" else 60))
+    # stateful German methods are always among the victims
+    victims += [i for i, d in enumerate(p) if d["fn"] == "algo" and d["key"] in ("DE:16", "DE:23", "DE:25", "DE:91")][:6]
+    probe = rng.sample(fam, 10)
+    solo = {i: calls.digest(calls.execute(S, p[i])) for i in set(victims) | set(probe)}
+    fp = Failpoints(env.PKG)
+    fp.install()
+    try:
+        for v in victims:
+            _, n_lines, _ = fp.run(lambda: calls.execute(S, p[v]), 0)
+            ks = list(range(1, n_lines + 1))
+            cap = 30 if shard["tier"] == "quick" else 400
+            if len(ks) > cap:
+                ks = sorted(set(ks[: cap // 3]) | set(rng.sample(ks, cap // 3)) | set(ks[-cap // 3 :]))
+            same_grp = [i for i, d in enumerate(p) if d.get("grp") and d.get("grp") == p[v].get("grp") and i != v][:3]
+            for i in same_grp:
+                solo.setdefault(i, calls.digest(calls.execute(S, p[i])))
+            for k in ks:
+                aborted, _, _ = fp.run(lambda: calls.execute(S, p[v]), k)
+                mon.ev()
+                mon.tally("aborted_calls" if aborted else "abort_point_not_reached")
+                mon.distinct(("abort", v, k))
+                for i in [v] + same_grp + probe[: 3 if shard["tier"] == "quick" else 10]:
+                    out = calls.execute(S, p[i])
+                    if calls.digest(out) != solo[i]:
+                        mon.viol("outcome_depends_on_history:after_aborted_call:" + p[i]["fn"], {"aborted_call": p[v], "aborted_at_package_line_number": k, "later_call": p[i]}, "outcome from before the abort", json.dumps(out, default=str)[:300])
+                        solo[i] = calls.digest(out)  # report each change once
+    finally:
+        fp.uninstall()
+    mon.sample({"aborted_call": p[victims[0]], "abort_points": "every line the call executes inside the package (sampled above 30)"})
+
+
+def run_coldaborts(shard, mon, S, p):
+    """The same for the very first use in a process: one child interpreter per K; in it each of a fixed set of
+    calls (first use of a look-up table, of an algorithm family, of the registries behind random draws) is aborted
+    at its K-th package line, and then made again together with related calls; outcomes are compared with this
+    (warm, never aborted) process."""
+    import subprocess  # noqa: PLC0415
+
+    rng = env.rng("C15", "coldaborts")
+    by_fn: dict = {}
+    for i, d in enumerate(p):
+        by_fn.setdefault(d["fn"], []).append(i)
+    victims = []
+    for fn in ("from_bank_code", "iban_lookup", "bic_lookup", "candidates", "random", "generate", "bic", "bban_check"):
+        if by_fn.get(fn):
+            victims.append(rng.choice(by_fn[fn]))
+    for key_ in ("DE:91", "DE:16", "DE:25", "DE:23"):
+        victims += [i for i, d in enumerate(p) if d["fn"] == "algo" and d["key"] == key_][:1]
+    follow = {v: [i for i, d in enumerate(p) if d.get("grp") and d.get("grp") == p[v].get("grp") and i != v][:3] + [j for j, d2 in enumerate(p) if d2.get("grp") == "edge:last"][:2] for v in victims}
+    ids = sorted(set(victims) | {j for f_ in follow.values() for j in f_})
+    solo = {i: calls.execute(S, p[i]) for i in ids}
+    code = (
+        "import sys, json\n"
+        "from vf import env, calls, judge\n"
+        "from vf.mon.failpoint import Failpoints\n"
+        "S = judge.lib()\n"
+        "calls.capture_warnings()\n"
+        "p = json.load(open(sys.argv[1]))\n"
+        "k = int(sys.argv[2]); plan = json.loads(sys.argv[3])\n"
+        "fp = Failpoints(env.PKG); fp.install()\n"
+        "out = []\n"
+        "for v, follow in plan:\n"
+        "    aborted, n, _ = fp.run(lambda: calls.execute(S, p[v]), k)\n"
+        "    out.append([v, aborted, [[i, calls.execute(S, p[i])] for i in [v] + follow]])\n"
+        "fp.uninstall()\n"
+        "print(json.dumps(out))\n"
+    )
+    e = dict(os.environ, PYTHONPATH=env.VERIF, PYTHONHASHSEED="0", PYTHONDONTWRITEBYTECODE="1")
+    for k in shard["ks"]:
+        try:
+            pr = subprocess.run([env.PY, "-c", code, shard["pool_file"], str(k), json.dumps([[v, follow[v]] for v in victims])], env=e, capture_output=True, text=True, timeout=600)
+            doc = json.loads(pr.stdout.strip().splitlines()[-1])
+        except Exception as ex:  # noqa: BLE001
+            mon.inconclusive.append(f"cold abort process did not finish: {ex!r}"[:200])
+            continue
+        for v, aborted, outs in doc:
+            mon.ev()
+            mon.distinct(("coldabort", v, k))
+            mon.tally("first_use_aborted" if aborted else "first_use_abort_point_not_reached")
+            for i, out in outs:
+                if calls.digest(out) != calls.digest(solo[i]):
+                    mon.viol("outcome_depends_on_history:after_aborted_first_use:" + p[i]["fn"], {"aborted_first_call": p[v], "aborted_at_package_line_number": k, "later_call": p[i]}, json.dumps(solo[i], default=str)[:300], json.dumps(out, default=str)[:300])
+    mon.sample({"aborted_first_use": p[victims[0]], "abort_points": shard["ks"]})
+
+
 def run_shard(shard, out_base):
+    if shard.get("kind") == "coldaborts":
+        mon = Mon("C15")
+        S = judge.lib()
+        calls.capture_warnings()
+        run_coldaborts(shard, mon, S, the_pool(shard["tier"], shard.get("pool_file")))
+        return mon.result(out_base)
+    if shard.get("kind") == "aborts":
+        mon = Mon("C15")
+        S = judge.lib()
+        calls.capture_warnings()
+        run_aborts(shard, mon, S, the_pool(shard["tier"], shard.get("pool_file")))
+        return mon.result(out_base)
     mon = Mon("C15")
     S = judge.lib()
     calls.capture_warnings()
